@@ -81,7 +81,7 @@ def run(ctx):
         "Coq 8.16.1 kernel + vm_compute (no native_compute); theorems closed under the global context (Print Assumptions checked each run)",
         "hand-written model coq/theories/C11/Model.v tied to whad/ble/stack/l2cap/__init__.py by the correspondence of this run",
         "scapy L2CAP_Hdr build/dissect (modelled as LE16 len, LE16 cid, channel 4 -> ATT, 6 -> SMP, empty payload -> no upper layer); exercised on every case",
-        "LinkLayer LLID mapping modelled (llid 1 <-> fragment flag) but driven at the L2CAP/LL boundary, not through a full LinkLayer",
+        "LinkLayer data path (on_l2cap_send_data / on_data_pdu) driven for real on a subset of the cases; BTLE_DATA is observed as (LLID, payload) before serialisation (the one-byte length field of the air format is outside the model)",
     ]
     ctx.assumptions = ["SDU length < 65536 and channel id < 65536 (the L2CAP header fields are 16-bit; scapy raises otherwise)",
                        "fragments are fed to the peer in order (the link layer's job)"]
@@ -136,8 +136,17 @@ def run(ctx):
         meta.append({"kind": "lossy-then-clean", "tail": [(c2, s2)] if (c2 in (4, 6) and s2) else []})
     r2 = C.run_impl("C11.py", {"send": [], "recv": [[[f, d.hex()] for f, d in frs] for frs in recv_cases]})
 
-    ctx.cov["evaluations"] = len(send_cases) + len(recv_cases)
-    ctx.cov["traces_validated_against_impl"] = len(send_cases) + len(recv_cases)
+    # ---- the same through the real LinkLayer of both stacks (LLID, payload) ----
+    step = 1 if ctx.thorough else 3
+    ll_send_idx = [i for i in range(0, len(send_cases), step) if len(send_cases[i][2]) <= 3000]
+    ll_recv_idx = list(range(0, len(recv_cases), step))
+    def to_ll(frs):
+        return [[(1 if f else rng.choice([2, 2, 2, 0])), d.hex()] for f, d in frs]
+    ll_recv_in = {i: to_ll(recv_cases[i]) for i in ll_recv_idx}
+    r3 = C.run_impl("C11.py", {"send_ll": [[send_cases[i][0], send_cases[i][1], send_cases[i][2].hex()] for i in ll_send_idx],
+                               "recv_ll": [ll_recv_in[i] for i in ll_recv_idx]})
+    ctx.cov["evaluations"] = len(send_cases) + len(recv_cases) + len(ll_send_idx) + len(ll_recv_idx)
+    ctx.cov["traces_validated_against_impl"] = ctx.cov["evaluations"]
 
     # ---- oracle: the property on the real code -----------------------------
     nviol = 0
@@ -176,6 +185,29 @@ def run(ctx):
                 ctx.violation("stray continuation fragment delivered to the upper layer", case,
                               key=KEY_STRAY, expected=[], observed=res["out"])
 
+    for k, i in enumerate(ll_send_idx):
+        res, (mtu, cid, sdu) = r3["send_ll"][k], send_cases[i]
+        case = {"op": "send_ll", "mtu": mtu, "cid": cid, "sdu": sdu.hex()}
+        if "exc" in res:
+            nviol += ctx.violation("link layer raised " + res["exc"] + " while sending an SDU", case, observed=res)
+            continue
+        pd = res["pdus"]
+        if mtu >= 23 and any(len(h) // 2 > mtu + 4 for _l, h in pd):
+            nviol += ctx.violation("link-layer payload exceeds MTU+4", case, observed=[len(h) // 2 for _l, h in pd])
+        if not pd or pd[0][0] != 2 or any(l != 1 for l, _ in pd[1:]):
+            nviol += ctx.violation("LLID sequence wrong (start must be 2, continuations 1)", case, observed=[l for l, _ in pd])
+        if "frags" in r1["send"][i] and [h for _l, h in pd] != [h for _f, h in r1["send"][i]["frags"]]:
+            nviol += ctx.violation("link layer altered the L2CAP fragments", case, observed=pd)
+    for k, i in enumerate(ll_recv_idx):
+        res, m = r3["recv_ll"][k], meta[i]
+        case = {"op": "recv_ll", "pdus": ll_recv_in[i], "kind": m["kind"]}
+        if "exc" in res:
+            nviol += ctx.violation("link layer / reassembly raised " + res["exc"], case, observed=res)
+            continue
+        if "out" in r2["recv"][i] and res["out"] != r2["recv"][i]["out"]:
+            nviol += ctx.violation("delivery through the link layer differs from delivery of the same fragments at the L2CAP boundary",
+                                   case, expected=r2["recv"][i]["out"], observed=res["out"])
+
     # ---- correspondence inside Coq -----------------------------------------
     pre = "From Whad Require Import Lib.Bytes C11.Model.\nOpen Scope N_scope."
     def frag_lit(frs):
@@ -195,6 +227,18 @@ def run(ctx):
             continue
         recv_terms.append("(%s, %s)" % (frag_lit(frs), clist([cpair(str(c), cbytes(bytes.fromhex(h))) for c, h in res["out"]])))
         recv_idx.append(i)
+    ll_send_terms, ll_recv_terms = [], []
+    for k, i in enumerate(ll_send_idx):
+        if "pdus" in r3["send_ll"][k]:
+            mtu, cid, sdu = send_cases[i]
+            ll_send_terms.append("(%s, %d, %s, %s)" % (cnat(mtu), cid, cbytes(sdu),
+                                 clist([cpair(str(l), cbytes(bytes.fromhex(h))) for l, h in r3["send_ll"][k]["pdus"]])))
+    for k, i in enumerate(ll_recv_idx):
+        if "out" in r3["recv_ll"][k]:
+            ll_recv_terms.append("(%s, %s)" % (clist([cpair(str(l), cbytes(bytes.fromhex(h))) for l, h in ll_recv_in[i]]),
+                                 clist([cpair(str(c), cbytes(bytes.fromhex(h))) for c, h in r3["recv_ll"][k]["out"]])))
+    bad_ls, logs_ls = C.run_cases(PID, "sendll", pre, "nat * N * bytes * list llpdu", ll_send_terms, "check_send_ll", shard=150)
+    bad_lr, logs_lr = C.run_cases(PID, "recvll", pre, "list llpdu * list (N * bytes)", ll_recv_terms, "check_recv_ll", shard=200)
     bad_s, logs_s = C.run_cases(PID, "send", pre, "nat * N * bytes * list frag", send_terms, "check_send", shard=150)
     bad_r, logs_r = C.run_cases(PID, "recv", pre, "list frag * list (N * bytes)", recv_terms, "check_recv", shard=200)
     ctx.notes += logs_s[:3] + logs_r[:3]
@@ -218,7 +262,8 @@ def run(ctx):
                               C.source_tie("whad/ble/stack/llm/__init__.py", 528, 570)]
 
     # ---- verdict --------------------------------------------------------------
-    if bad_s or bad_r or not proofs_ok:
+    ctx.log("correspondence (link layer): send %d cases %d bad; recv %d cases %d bad" % (len(ll_send_terms), len(bad_ls), len(ll_recv_terms), len(bad_lr)))
+    if bad_s or bad_r or bad_ls or bad_lr or not proofs_ok:
         if not ctx.violations:
             first = None
             if bad_s:
@@ -227,10 +272,15 @@ def run(ctx):
             elif bad_r:
                 i = recv_idx[bad_r[0]]
                 first = {"op": "recv", "frags": [[f, d.hex()] for f, d in recv_cases[i]], "impl": r2["recv"][i]}
-            what = ("correspondence C11.Model vs L2CAPLayer (%d send, %d recv disagreements)" % (len(bad_s), len(bad_r))
-                    if (bad_s or bad_r) else "proof obligations of theories/C11: " + detail.splitlines()[0][:200])
+            elif bad_ls:
+                first = {"op": "send_ll", "term": ll_send_terms[bad_ls[0]][:3000]}
+            elif bad_lr:
+                first = {"op": "recv_ll", "term": ll_recv_terms[bad_lr[0]][:3000]}
+            what = ("correspondence C11.Model vs L2CAPLayer/LinkLayer (%d send, %d recv, %d ll-send, %d ll-recv disagreements)" % (len(bad_s), len(bad_r), len(bad_ls), len(bad_lr))
+                    if (bad_s or bad_r or bad_ls or bad_lr) else "proof obligations of theories/C11: " + detail.splitlines()[0][:200])
             ctx.broken_obligation(what, detail if not proofs_ok else "\n".join(logs_s + logs_r), first)
-    ctx.cov["correspondence"] = {"send_cases": len(send_terms), "send_bad": len(bad_s), "recv_cases": len(recv_terms), "recv_bad": len(bad_r)}
+    ctx.cov["correspondence"] = {"send_cases": len(send_terms), "send_bad": len(bad_s), "recv_cases": len(recv_terms), "recv_bad": len(bad_r),
+                                 "ll_send_cases": len(ll_send_terms), "ll_send_bad": len(bad_ls), "ll_recv_cases": len(ll_recv_terms), "ll_recv_bad": len(bad_lr)}
 
 
 def replay(payload):
